@@ -4,6 +4,7 @@ import DarkluaModel.Shared.VisitorSound
 import DarkluaModel.Rules.Witness
 import DarkluaModel.C08.Thm
 import DarkluaModel.C06.Whole
+import DarkluaModel.C06.CompoundWhole
 /-!
 # C06 — the Luau-lowering rules preserve program behaviour: property theorems (local lemmas)
 
@@ -677,12 +678,85 @@ mutual
     | .mk stmts last => noRepeatSs inLoop stmts && noRepeatOL inLoop last
 end
 
-/-- `remove_compound_assignment` with temporaries (`p.f op= v`, `p[k] op= v` with non-trivial `p`/`k`):
-prefix, key, old value, right-hand side evaluated once each, in that order — same outcome. (The
-temporaries are `__DARKLUA_VAR…` names the tracker found unused among the declared locals in scope.) -/
-def compound_refines : Prop :=
+/-! ### `remove_compound_assignment` as a whole (temporaries included) -/
+
+/-- the full claim: every well-formed program keeps its observable outcome -/
+def compound_full : Prop :=
   ∀ (b : Block) (N : NumOps) (ρ : ExtOracle N) (n : Nat) (externs : List String), wfB b = true →
     runProgram ρ n externs (RemoveCompoundAssign.apply b) = runProgram ρ n externs b
+
+/-- F30: `local T = {x="a"}; local U = {x="c"}; local function key() T = U; return "x" end;
+T[key()] ..= "b"; return T.x, U.x` -/
+def f30Witness : Block :=
+  .mk [.localAssign .loc [.mk "T" none] [.table [.named "x" (.str [97])]],
+       .localAssign .loc [.mk "U" none] [.table [.named "x" (.str [99])]],
+       .localFn .loc "key" (.mk [] false none none [] []
+         (.mk [.assign [.var "T"] [.var "U"]] (some (.ret [.str [120]])))),
+       .cassign .concat (.index (.var "T") (.call (.var "key") none .tuple [])) (.str [98])]
+    (some (.ret [.field (.var "T") "x", .field (.var "U") "x"]))
+
+/-- the string values a run returned -/
+def outStrs : Outcome → List (List UInt8)
+  | .returned vals _ => vals.map fun v => match v with | .str s => s | _ => []
+  | _ => [[0]]
+
+open Rules.Witness in
+/-- **F30**: an identifier prefix gets no temporary while the key does, so the key is evaluated before
+the prefix variable is read: when evaluating the key assigns that variable, the original updates the OLD
+table (returns "c", "c"), the lowered program the NEW one (returns "cb", "cb"). -/
+theorem compound_full_false : ¬ compound_full := by
+  intro hfull
+  have h0 : wfB f30Witness = true := by decide +kernel
+  have h1 : outStrs (runProgram ρ0 3 [] f30Witness) = [[99], [99]] := by decide +kernel
+  have h2 : outStrs (runProgram ρ0 3 [] (RemoveCompoundAssign.apply f30Witness)) = [[99, 98], [99, 98]] := by
+    decide +kernel
+  rw [hfull f30Witness unitOps ρ0 3 [] h0, h1] at h2
+  exact absurd h2 (by decide)
+
+/-- **`remove_compound_assignment` as a whole, temporaries included** (`p.f op= v` ⇒
+`do local t = p; t.f = t.f op v end`, `p[k] op= v` ⇒ `do local t, i = p, k; t[i] = t[i] op v end`, …):
+same observable outcome — returned values, raised error, external-call trace; prefix, key, old value,
+right-hand side evaluated once each, in that order — for every program in which every compound assignment
+satisfies the guard `Compound.compoundOk`: a compound operator on an assignable target (what the parser
+produces), no mention of an identifier starting with `__DARKLUA_VAR` (the tracker knows the DECLARED names
+only: a global of that name would be captured), and not the F30 shape (identifier prefix with a key that
+gets a temporary). Proof: the rewrites without temporaries are exact; those with temporaries are sound
+for the heap relation of stage 3 (`C06/CompoundSem.lean`), as links relative to the dead sets that
+contain no generated name (`C06/HeapOn.lean`); the generated names are unused and pairwise distinct
+(`C06/TrackerFresh.lean`, pigeonhole on the tracker's search); guarded lifting (`C06/LiftOn.lean`). -/
+theorem compound_partial (b : Block) (hg : okB Compound.cGuard b) (ρ : ExtOracle N) (n : Nat)
+    (externs : List String) :
+    runProgram ρ n externs (RemoveCompoundAssign.apply b) = runProgram ρ n externs b :=
+  Compound.remove_compound_refines_lift b hg ρ n externs
+
+/-- `getT().x += 1; getT()[key()] *= y` -/
+def compoundSample : Block :=
+  .mk [.cassign .add (.field (.call (.var "getT") none .tuple []) "x") (.num 0x3FF0000000000000),
+       .cassign .mul (.index (.call (.var "getT") none .tuple []) (.call (.var "key") none .tuple [])) (.var "y")] none
+
+-- non-vacuity: both statements get temporaries (distinct, unused names)
+example : RemoveCompoundAssign.apply compoundSample =
+  .mk [.doBlock (.mk [.localAssign .loc [.mk "__DARKLUA_VAR" none] [.call (.var "getT") none .tuple []],
+         .assign [.field (.var "__DARKLUA_VAR") "x"]
+           [.bin .add (.field (.var "__DARKLUA_VAR") "x") (.num 0x3FF0000000000000)]] none),
+       .doBlock (.mk [.localAssign .loc [.mk "__DARKLUA_VAR0" none, .mk "__DARKLUA_VAR1" none]
+           [.call (.var "getT") none .tuple [], .call (.var "key") none .tuple []],
+         .assign [.index (.var "__DARKLUA_VAR0") (.var "__DARKLUA_VAR1")]
+           [.bin .mul (.index (.var "__DARKLUA_VAR0") (.var "__DARKLUA_VAR1")) (.var "y")]] none)] none := rfl
+
+theorem isTmp_length {n : String} (h : Compound.isTmp n) : 13 ≤ n.length := by
+  obtain ⟨s, rfl⟩ := h
+  have : "__DARKLUA_VAR".length = 13 := by decide
+  simp [RemoveCompoundAssign.varPrefix, String.length_append, this]
+
+-- … and the sample satisfies the guard
+example : okB Compound.cGuard compoundSample := by
+  have key : ∀ n, Compound.isTmp n → n ≠ "getT" ∧ n ≠ "key" ∧ n ≠ "y" := fun n hn => by
+    have := isTmp_length hn
+    refine ⟨?_, ?_, ?_⟩ <;> (rintro rfl; revert this; decide)
+  simp only [compoundSample, okB, okSs, okS, okE, okEs, okOL, Compound.cGuard, Compound.compoundOk, and_true]
+  refine ⟨⟨rfl, rfl, fun n hn => ?_⟩, rfl, rfl, fun n hn => ?_, fun _ => rfl⟩ <;>
+    simp [Expr.refsT, Expr.refs, Expr.refsList, (key n hn).1, (key n hn).2.1, (key n hn).2.2]
 
 /-- `remove_continue` on programs without `repeat` loops (F9 is about `repeat`): flag + inner
 `repeat … until true` + conditional `break`, for `while` / numeric `for` / generic `for`, bodies that
